@@ -18,7 +18,7 @@ MANIFEST = {
             "process with all inputs in PROT_READ pages (a fault there is reported as a violation naming the kernel).",
     "design_ref": "DESIGN.md section 4 C07, appendix B",
     "note": "Trusted: harness/kexport.py, the Z_p interpretation (ring homomorphism on dyadic literals, uninterpreted math functions), "
-            "C16 for AST<->C. Bounded: kernels up to 20k/350k statement instances, pairs up to 2.5k/30k; 2-thread model.",
+            "C16 for AST<->C. Bounded: kernels up to 20k/250k statement instances, pairs up to 2.5k/30k; 2-thread model.",
 }
 
 
